@@ -7,7 +7,8 @@
                                                          fractional digits given as its scaled integer (0.29 -> 29000)
    A value is an exact rational <<num, den>> of n-byte words, den > 0.
    case = EbpfRun's case record plus  op (add sub mul truediv floordiv mod, or cmp_gt .. cmp_eq), l, r (operands),
-          dstfixed (is the destination fixed-point?), dst [fd, off] (8 bytes), n, marks (for comparisons).
+          dstfixed (is the destination fixed-point?), dst [fd, off, size, be] (8 bytes unless size says otherwise;
+          be: declared big-endian), n, marks (for comparisons).
 
    What the property demands (and nothing more):
      * arithmetic gives the exact rational result, "dropped to the destination's representation": a fixed-point
@@ -57,7 +58,10 @@ ResultFixed(op, l, r) == IF op = "truediv" THEN TRUE ELSE IF op = "floordiv" THE
 (* what the destination may hold *)
 Dropped(res, dstfixed, n) ==
     UNION {IF dstfixed THEN Ints(<<WMul(x[1], FB(n)), x[2]>>) ELSE Ints(x) : x \in res}
-ExpectedRaw(k) == {WTrunc(v, 8) : v \in Dropped(Results(k.op, RatOf(k, k.l), RatOf(k, k.r), k.n), k.dstfixed, k.n)}
+(* the destination is 8 bytes wide unless its record says otherwise (an integer variable of 1, 2 or 4 bytes, possibly
+   declared with a byte order): the machine store keeps the low bytes *)
+DstSize(k) == IF "size" \in DOMAIN k.dst THEN k.dst.size ELSE 8
+ExpectedRaw(k) == {WTrunc(v, DstSize(k)) : v \in Dropped(Results(k.op, RatOf(k, k.l), RatOf(k, k.r), k.n), k.dstfixed, k.n)}
 
 (* the precondition: operands at the finest scale the operation may need (an integer meeting fixed point is
    scaled by 100000, by 100000^2 when it is divided by a fixed-point value), the exact results scaled by 100000,
@@ -75,12 +79,17 @@ Scales(k) == LET a == RawOf(k, k.l)  b == RawOf(k, k.r)  f == FB(k.n)
        [] k.op = "mul" -> {WMul(a, b)}
        [] k.op = "truediv" -> {IF li /\ ~ri THEN WMul(WMul(a, f), f) ELSE IF li = ri THEN WMul(a, f) ELSE a}
        [] OTHER -> {sa, sb})
+(* "the narrowest width involved": the operands are 8 bytes wide, an arithmetic statement also involves its
+   destination - an integer destination of 4 or 2 bytes makes the generator compute in 32 bits, and the property
+   then only speaks of values that fit the destination's width *)
+PreWidth(k) == IF k.op \in {"mov", "add", "sub", "mul", "truediv", "floordiv", "mod"} THEN DstSize(k) ELSE 8
+FitsPre(k, v) == WFitsS(v, PreWidth(k))
 PreOK(k) ==
     /\ (k.op \in {"truediv", "floordiv", "mod"} => ~RIsZero(RatOf(k, k.r)))
-    /\ \A v \in Scales(k) : Fits64(v)
+    /\ \A v \in Scales(k) : FitsPre(k, v)
     /\ (k.op \in {"mov", "add", "sub", "mul", "truediv", "floordiv", "mod"} =>
           \A x \in Results(k.op, RatOf(k, k.l), RatOf(k, k.r), k.n) :
-              \A v \in Ints(<<WMul(x[1], FB(k.n)), x[2]>>) : Fits64(v))
+              \A v \in Ints(<<WMul(x[1], FB(k.n)), x[2]>>) : FitsPre(k, v))
 
 (* comparisons *)
 CmpTrue(op, a, b) ==
@@ -127,7 +136,7 @@ FixedVerdictOf(k, f) ==
     ELSE IF IsCmp(k) THEN
         (IF MarksOf(k, f) = ExpectedMarks(k) THEN <<"ok", <<>>, MarksOf(k, f), ExpectedMarks(k)>>
          ELSE <<"wrong", <<>>, MarksOf(k, f), ExpectedMarks(k)>>)
-    ELSE LET got == LoadBytes(f.m, Rg("arr", k.dst.fd, <<>>), k.dst.off, 8) IN
+    ELSE LET got == InOrder(k.dst, LoadBytes(f.m, Rg("arr", k.dst.fd, <<>>), k.dst.off, DstSize(k))) IN
          IF got \in ExpectedRaw(k) THEN <<"ok", <<>>, got, ExpectedRaw(k)>>
          ELSE <<"wrong", <<>>, got, ExpectedRaw(k)>>
 FixedReport(k, v) == <<"VERDICT", cid>> \o v \o <<IF v[1] \in {"wrong", "fault"} THEN DivOnNegative(k) ELSE FALSE>>
